@@ -35,6 +35,7 @@ PROPERTY = {
         "every equation of the operator, as the code documents",
     ],
 }
+PROPERTY["rule"] += ' Variant rewrite: to_yaml of another version of the model, from_yaml, to_yaml of the judged model into the same file, from_yaml again - without cache reset, the file named in four notations.'
 
 DT = 0.01
 IDC = "A-Za-z0-9_"
